@@ -22,6 +22,7 @@ import (
 	"github.com/conduitio/conduit-commons/semaphore"
 	"github.com/conduitio/conduit/pkg/foundation/cerrors"
 	"github.com/conduitio/conduit/pkg/foundation/log"
+	"github.com/conduitio/conduit/pkg/foundation/verifhook"
 )
 
 // SourceAckerNode is responsible for handling acknowledgments for messages of
@@ -95,6 +96,7 @@ func isClosedSourceStream(err error) bool {
 func (n *SourceAckerNode) registerAckHandler(msg *Message, ticket semaphore.Ticket) {
 	msg.RegisterAckHandler(
 		func(msg *Message) (err error) {
+			verifhook.Point("stream.sourceacker.ack")
 			n.logger.Trace(msg.Ctx).Msg("acquiring semaphore for ack")
 			lock := n.sem.Acquire(ticket)
 			defer func() {
@@ -137,6 +139,7 @@ func (n *SourceAckerNode) registerAckHandler(msg *Message, ticket semaphore.Tick
 func (n *SourceAckerNode) registerNackHandler(msg *Message, ticket semaphore.Ticket) {
 	msg.RegisterNackHandler(
 		func(msg *Message, nackMetadata NackMetadata) (err error) {
+			verifhook.Point("stream.sourceacker.nack")
 			n.logger.Trace(msg.Ctx).Any("nackMetadata", nackMetadata).Msg("acquiring semaphore for nack")
 			lock := n.sem.Acquire(ticket)
 			defer func() {
